@@ -1,4 +1,147 @@
+import BobModel.Model.PathSpec
 import BobModel.Util.Proto
-open Lean Proto
-/-- stub driver of C18: replaced when the model of this property is built -/
-def main : IO Unit := runPure fun _ => err "unsupported"
+open Lean Proto PathSpec
+
+/-
+requests (one JSON object per line, the driver keeps the current graph):
+ {"op":"graph","size":n,"root":r,"names":[s],"direct":[[i]],"indirect":[[i]],"svals":[[s per node] per leaf]}
+     -> {"children":[[[name,node,direct]]],"parents":[[[p,flag]]]}
+ {"op":"query","path":[tok],"mode":"nullset|nullglob|nullfail"}
+     tok  = "/" | "//" | {"axis":a,"test":t,"pred":P|null}
+     P    = {"not":P} | {"and":[P,P]} | {"or":[P,P]} | {"path":[tok]} | {"cmp":op,"l":leaf,"r":leaf} | {"truth":leaf}
+     -> {"err":kind} | {"nodes":[i],"valid":[i],"tree0":[[[name],node]],"tree1":..,"pkg0":..,"pkg1":..}
+        (tree1/pkg1 only with "all":true)
+ {"op":"prep","aliases":{k:v},"path":s} -> {"text":s}
+ {"op":"glob","pat":s,"name":s} -> {"ok":b}
+-/
+
+def natList (j : Json) : List Nat :=
+  match j with
+  | .arr a => a.toList.map fun x => (x.getNat?.toOption).getD 0
+  | _ => []
+
+def emptyGraph : Graph := { size := 0, root := 0, name := fun _ => [], children := fun _ => [], sval := fun _ _ => [] }
+
+def graphOf (j : Json) : Graph :=
+  let names : Array Str := ((getArr j "names").map fun x => match x with | .str s => s.toList | _ => []).toArray
+  let direct : Array (List Nat) := ((getArr j "direct").map natList).toArray
+  let indirect : Array (List Nat) := ((getArr j "indirect").map natList).toArray
+  let svals : Array (Array Str) := ((getArr j "svals").map fun row => ((strList row).map String.toList).toArray).toArray
+  let p : Pkgs := { size := getNat j "size", root := getNat j "root",
+                    name := fun i => names.getD i [],
+                    direct := fun i => direct.getD i [],
+                    indirect := fun i => indirect.getD i [] }
+  -- the children table is computed once per graph
+  let ch : Array (List Edge) := ((List.range p.size).map (convChildren p)).toArray
+  { size := p.size, root := p.root, name := p.name, children := fun i => ch.getD i [],
+    sval := fun l n => (svals.getD l #[]).getD n [] }
+
+def axisOf : String → Axis
+  | "self" => .self | "child" => .child | "descendant" => .descendant
+  | "descendant-or-self" => .descendantOrSelf | "direct-child" => .directChild
+  | "direct-descendant" => .directDescendant | "direct-descendant-or-self" => .directDescendantOrSelf
+  | _ => .self
+
+def cmpOf : String → CmpOp
+  | "<" => .lt | "<=" => .le | ">" => .gt | ">=" => .ge | "==" => .eq | _ => .ne
+
+instance : Inhabited Pred := ⟨.truth 0⟩
+instance : Inhabited Steps := ⟨.nil⟩
+
+mutual
+partial def predOf (j : Json) : Pred :=
+  match j.getObjVal? "not" with
+  | .ok p => .not (predOf p)
+  | _ => match j.getObjVal? "and" with
+    | .ok (.arr a) => .and (predOf (a.getD 0 .null)) (predOf (a.getD 1 .null))
+    | _ => match j.getObjVal? "or" with
+      | .ok (.arr a) => .or (predOf (a.getD 0 .null)) (predOf (a.getD 1 .null))
+      | _ => match j.getObjVal? "path" with
+        | .ok (.arr a) => .path (isAbsolute a.toList) (stepsOf a.toList)
+        | _ => match j.getObjVal? "cmp" with
+          | .ok (.str op) => .cmp (cmpOf op) (getNat j "l") (getNat j "r")
+          | _ => .truth (getNat j "truth")
+/-- the token list as `LocationPath.__init__` sees it: `/` dropped, `//` = descendant-or-self@* -/
+partial def stepsOf (toks : List Json) : Steps :=
+  match toks with
+  | [] => .nil
+  | .str "/" :: rest => stepsOf rest
+  | .str "//" :: rest => .cons .descendantOrSelf star .none (stepsOf rest)
+  | t :: rest =>
+    let op := match getObj? t "pred" with
+      | some p => OptPred.some (predOf p)
+      | none => OptPred.none
+    .cons (axisOf (getStr t "axis")) (getStr t "test").toList op (stepsOf rest)
+partial def isAbsolute (toks : List Json) : Bool :=
+  match toks with
+  | .str "/" :: _ => true
+  | .str "//" :: _ => true
+  | _ => false
+end
+
+def modeOf : String → Mode
+  | "nullset" => .nullset | "nullfail" => .nullfail | _ => .nullglob
+
+def jStr (s : Str) : Json := Json.str (String.ofList s)
+def jNats (l : List Nat) : Json := Json.arr (l.map fun (n : Nat) => (n : Json)).toArray
+
+def jTree (l : List (List Str × Node)) : Json :=
+  Json.arr (l.map fun (s, n) => Json.arr #[Json.arr (s.map jStr).toArray, (n : Json)]).toArray
+
+def errName : QErr → String
+  | .notFound => "notFound" | .noMatch => "noMatch"
+
+def sortNats (l : List Nat) : List Nat := (l.toArray.qsort (· < ·)).toList
+
+/-- Is the result of `__findIntermediateNodes(old, new, qi)` possibly dependent on the iteration
+order of the Python set `old`?  Every node reachable from `old` through non-`new` nodes is
+explored exactly once and each of its child edges is followed once, so the number of `traverse`
+calls a node receives does not depend on the order.  If every non-`new` node from which `new` is
+reachable receives one call only, no productive stack is ever pruned by `visited` and the
+result is the same for every order. -/
+def orderSensitive (g : Graph) (old new : List Node) (qi : Bool) : Bool :=
+  let old := dedup old
+  if old.length < 2 || superset old new then false
+  else
+    let succ' := fun i => if new.contains i then [] else succs g qi i
+    let explored := union old ((worklist succ' (g.size + 2) old []).getD [])
+    let inner := explored.filter (fun u => !new.contains u)
+    let calls := fun c => (if old.contains c then 1 else 0) + (inner.map fun u => (succs g qi u).count c).sum
+    inner.any fun c => calls c ≥ 2 && !(traverse g new qi (g.size + 1) c [] ([], [])).2.isEmpty
+
+def handle (g : Graph) (j : Json) : Graph × Json :=
+  match getStr j "op" with
+  | "graph" =>
+    let g := graphOf j
+    let ch := (allNodes g).map fun i => Json.arr ((g.children i).map fun e => Json.arr #[jStr e.name, (e.node : Json), Json.bool e.direct]).toArray
+    let pa := (allNodes g).map fun x => Json.arr ((preds g true x).map fun (p : Nat) =>
+      Json.arr #[(p : Json), Json.bool ((parentFlag g p x).getD false)]).toArray
+    (g, Json.mkObj [("children", Json.arr ch.toArray), ("parents", Json.arr pa.toArray)])
+  | "query" =>
+    let steps := (stepsOf (getArr j "path")).normalize
+    let mode := modeOf (getStr j "mode")
+    match evalForward g mode steps with
+    | .error e => (g, Json.mkObj [("err", Json.str (errName e))])
+    | .ok (nodes, valid) =>
+      let run (f : Graph → Bool → Nat → Node → List Str → RState → RState) (qa : Bool) :=
+        jTree (f g qa (g.size + 1) g.root [] { out := [], result := nodes, valid := valid }).out
+      let sens := (forwardTrace g steps [g.root]).any fun (old, new, search) =>
+        match search with
+        | some qi => orderSensitive g old new qi
+        | none => false
+      let base := [("nodes", jNats (sortNats (dedup nodes))), ("valid", jNats (sortNats (dedup valid))),
+                   ("sensitive", Json.bool sens),
+                   ("tree0", run findResultNodes false), ("pkg0", run findResultPackages false)]
+      let more := if getBool j "all" then [("tree1", run findResultNodes true), ("pkg1", run findResultPackages true)] else []
+      (g, Json.mkObj (base ++ more))
+  | "prep" =>
+    let al := match j.getObjValD "aliases" with
+      | .obj kvs => kvs.toList.filterMap fun (k, v) => match v with
+        | .str s => some (k.toList, s.toList)
+        | _ => none
+      | _ => []
+    (g, Json.mkObj [("text", jStr (prepareQuery al (getStr j "path").toList))])
+  | "glob" => (g, Json.mkObj [("ok", Json.bool (nameTest (getStr j "pat").toList (getStr j "name").toList))])
+  | _ => (g, err "bad-op")
+
+def main : IO Unit := run Graph emptyGraph handle
